@@ -42,6 +42,8 @@ def apply_contract(I, con, f, args, kwargs, bound_self, caller=None):
         ctx.check_obligation(f"{caller}::call[{short(con.qualname)}].{cid}", fm)
         ctx.assume(fm)
     old_view = snapshot(list(bindings.values()))
+    if getattr(con, "pre_call", None) is not None:
+        con.pre_call(I, bindings)
     # exceptional outcomes
     for r in con.raises_:
         if r.when is not None:
@@ -101,9 +103,12 @@ def apply_contract(I, con, f, args, kwargs, bound_self, caller=None):
             inv_after = [_z(f) for _i, f in spec.invariant_formulas(I, self_obj)]
             ctx.assume(z3.Implies(z3.And(inv_before), z3.And(inv_after)))
     result = None
-    if con.returns_ is not None:
+    if getattr(con, "returns_fn", None) is not None:
+        result = con.returns_fn(I, bindings)
+    elif con.returns_ is not None:
         result = con.returns_.fresh(I, f"{short(con.qualname)}.result")
     ctx.emit(con.effect_name or con.qualname, self_obj, tuple(args), dict(kwargs))
+    ctx.emit("ret", con.effect_name or con.qualname, result)
     b2 = dict(bindings)
     b2["result"] = result
     b2["raised"] = None
